@@ -202,6 +202,18 @@ class Engine:
     def raise_(self, ctx, cls, *args):
         return ctx, Raised(Exc(cls, args))
 
+    def alias_write(self, ctx, h, what):
+        """A write through a local that is a live view of a state field (a dict obtained without .copy()).  If the function's
+        frame does not allow that field to change, this is a frame violation on every execution that gets here; if it does,
+        the by-value container model cannot follow the write."""
+        a = h.alias_of
+        key = (a.obj, a.field) if hasattr(a, 'obj') else None
+        if self.current is not None and key is not None and key not in self.current.modifies:
+            self.oblig('frame.no-write-through-a-live-view', ctx, z3.BoolVal(False), kind='frame')
+            self.ext.note('a write through a live view of %s.%s was met (frame obligation raised)' % key)
+            return
+        raise Unsupported('%s through a live view of %r (aliasing write: outside the by-value container model)' % (what, a))
+
     def oblig(self, name, ctx, goal, tags=(), kind='assert'):
         self.obligs.append(Oblig(name, list(ctx.pc) + list(self.hyps_extra), goal, tags, kind))
 
@@ -1641,7 +1653,7 @@ class Engine:
         if isinstance(cont, HRef):
             h = ctx.heap[cont.id]
             if h.alias_of is not None:
-                raise Unsupported('item assignment through a live view of %r (aliasing write)' % (h.alias_of,))
+                self.alias_write(ctx, h, 'item assignment')
             if h.kind == 'map':
                 k = self.to_v(ctx, key)
                 if isinstance(h.data, dict):
@@ -1718,7 +1730,7 @@ class Engine:
         if isinstance(cont, HRef):
             h = ctx.heap[cont.id]
             if h.alias_of is not None:
-                raise Unsupported('del through a live view of %r (aliasing write)' % (h.alias_of,))
+                self.alias_write(ctx, h, 'del')
             if h.kind == 'map' and isinstance(h.data, SV):
                 k = self.to_v(ctx, key)
                 for c, pres in self.branch(ctx, h.data.present(k)):
